@@ -45,7 +45,7 @@ func init() {
 			}
 			return false
 		},
-		Rule:     "one subject string and 1..8 independent calls on it. Streams: mixed = 0..9 fragments of {a,B,_,1,é,你,😀,\\xff,\\xe4\\xbd}; edge = the same mixed 50/50 with boundary scalars of every encoded length (U+7F,U+80,U+7FF,U+800,U+D7FF,U+E000,U+FFFD,U+FFFF,U+10000,U+10FFFF) and malformed sequences (lone continuation, truncated 2/3/4-byte, overlong, surrogate, >U+10FFFF, 0xf8); ident = words of the grammar [a-z][a-z0-9]*(_[a-z][a-z0-9]*)*; ident-mutated = one insertion of _,A,Z,1,é,你,\\xff,_1 into such a word. Arguments 0..runeCount+3 (30% within ±1..3 of the end, 30% in the lower half so that sums stay inside), 4% huge (MaxInt64-k, MaxInt64/2+k, MaxInt64-runeCount-k, 2^31..2^62: sums wrap around in int), -1 for Sub's length, 2% negative (correspondence only). Corpus: every string of ≤ 3 fragments with every in-scope argument. Non-trivial = the subject contains a multi-byte rune or an invalid byte, or is a grammar identifier with at least one underscore; distinct by hash of subject+ops",
+		Rule:     "one subject string and 1..8 independent calls on it. Streams: mixed = 0..9 fragments of {a,B,_,1,é,你,😀,\\xff,\\xe4\\xbd}; edge = the same mixed 50/50 with boundary scalars of every encoded length (U+7F,U+80,U+7FF,U+800,U+D7FF,U+E000,U+FFFD,U+FFFF,U+10000,U+10FFFF) and malformed sequences (lone continuation, truncated 2/3/4-byte, overlong, surrogate, >U+10FFFF, 0xf8); ident = words of the grammar [a-z][a-z0-9]*(_[a-z][a-z0-9]*)*; ident-mutated = one insertion of _,A,Z,1,é,你,\\xff,_1 into such a word; camel = the camelCase/PascalCase image of such a word. Arguments 0..runeCount+3 (30% within ±1..3 of the end, 30% in the lower half so that sums stay inside), 4% huge (MaxInt64-k, MaxInt64/2+k, MaxInt64-runeCount-k, 2^31..2^62: sums wrap around in int), -1 for Sub's length, 2% negative (correspondence only). Corpus: every string of ≤ 3 fragments with every in-scope argument. Non-trivial = the subject contains a multi-byte rune or an invalid byte, or is a grammar identifier with at least one underscore; distinct by hash of subject+ops",
 		Classify: classify,
 		Parallel: true,
 		Extras:   []core.Extra{Utf8TieExtra()},
@@ -65,6 +65,9 @@ var edgeFrags = []string{"\x7f", "\u0080", "\u07ff", "\u0800", "\ud7ff", "\ue000
 	"\x80", "\xc3", "\xe4\xbd", "\xf0\x9f\x98", "\xc0\x80", "\xe0\x80\x80", "\xed\xa0\x80", "\xf4\x90\x80\x80", "\xf8"}
 
 var identRe = regexp.MustCompile(`^[a-z][a-z0-9]*(_[a-z][a-z0-9]*)*$`)
+
+// ASCII camelCase / PascalCase identifiers (the images of identRe under SnakeToCamelCase, and more)
+var camelRe = regexp.MustCompile(`^[A-Za-z][A-Za-z0-9]*$`)
 
 func hx(s string) string {
 	if s == "" {
@@ -189,6 +192,15 @@ func genIdent(r *core.Rand) (string, string) {
 		ws[i] = genWord(r)
 	}
 	s := strings.Join(ws, "_")
+	if r.Chance(15) {
+		// the camel-case image (either firstUp) as a subject of its own: c2s on camel identifiers
+		for i := range ws {
+			if i > 0 || r.Bool() {
+				ws[i] = strings.ToUpper(ws[i][:1]) + ws[i][1:]
+			}
+		}
+		return strings.Join(ws, ""), "camel"
+	}
 	if !r.Chance(30) {
 		return s, "ident"
 	}
@@ -237,7 +249,7 @@ func gen(r *core.Rand, tier string) core.Case {
 	}
 	lines := []string{"@ C17 s " + hx(s)}
 	k := r.Range(1, 8)
-	ident := tag == "ident" || tag == "ident-mutated"
+	ident := tag == "ident" || tag == "ident-mutated" || tag == "camel"
 	for i := 0; i < k; i++ {
 		var w []int
 		if ident {
@@ -475,6 +487,55 @@ func check(c core.Case, out []string) *core.Failure {
 		if fn == "round" {
 			if identRe.MatchString(s) && got != s {
 				return &core.Failure{Key: "snake-camel-roundtrip", Desc: fmt.Sprintf("CamelCaseToSnake(SnakeToCamelCase(%q, %s)) = %q", s, t[1], got)}
+			}
+			continue
+		}
+		// byte-level definitions that hold for every subject (valid UTF-8 or not)
+		switch fn {
+		case "ucfirst", "lcfirst":
+			want := s
+			if len(s) > 0 {
+				if b := s[0]; fn == "ucfirst" && 'a' <= b && b <= 'z' {
+					want = string(rune(b-32)) + s[1:]
+				} else if fn == "lcfirst" && 'A' <= b && b <= 'Z' {
+					want = string(rune(b+32)) + s[1:]
+				}
+			}
+			if got != want {
+				return &core.Failure{Key: fn + "-spec", Desc: fmt.Sprintf("%s(%q) = %q, want %q (only a leading ASCII letter is re-cased)", fn, s, got, want)}
+			}
+			continue
+		case "s2c":
+			// on identifiers of the round-trip grammar: the usual camel casing
+			if identRe.MatchString(s) {
+				ws := strings.Split(s, "_")
+				for j, w := range ws {
+					if j > 0 || t[1] == "true" {
+						ws[j] = strings.ToUpper(w[:1]) + w[1:]
+					}
+				}
+				if want := strings.Join(ws, ""); got != want {
+					return &core.Failure{Key: "s2c-spec", Desc: fmt.Sprintf("SnakeToCamelCase(%q, %s) = %q, want %q", s, t[1], got, want)}
+				}
+			}
+			continue
+		case "c2s":
+			// on ASCII camel-case identifiers: '_' before every capital except the first byte, lower-cased
+			if camelRe.MatchString(s) {
+				var sb strings.Builder
+				for j := 0; j < len(s); j++ {
+					if b := s[j]; 'A' <= b && b <= 'Z' {
+						if j > 0 {
+							sb.WriteByte('_')
+						}
+						sb.WriteByte(b + 32)
+					} else {
+						sb.WriteByte(b)
+					}
+				}
+				if want := sb.String(); got != want {
+					return &core.Failure{Key: "c2s-spec", Desc: fmt.Sprintf("CamelCaseToSnake(%q) = %q, want %q", s, got, want)}
+				}
 			}
 			continue
 		}
